@@ -28,6 +28,9 @@ def _alt(rng, expect, credit=None, pin=False):
     d = {'expect': expect, 'grade_decimal': rng.choice(CREDITS) if credit is None else credit, 'msg': rng.choice(MSGS)}
     if pin and d['grade_decimal'] == 1 and rng.random() < 0.3:
         d['ok'] = rng.choice([True, False, 'partial'])
+    elif d['grade_decimal'] != 1 and rng.random() < 0.2:
+        # an explicit ok beside a credit other than 1 has no effect: ok follows the credit
+        d['ok'] = rng.choice([True, False, 'partial'])
     return d
 
 
